@@ -584,7 +584,7 @@ func ExecuteConc(t *testing.T, plan *Plan, opts Opts) *RunResult {
 		res.Stats.Steps += len(tp.Steps)
 	}
 	res.Stats.SeamCalls = conc.hops
-	res.Stats.Shapes[conc.order]++
+	res.Stats.shape(conc.order)
 	res.Stats.Probes[fmt.Sprintf("tasks=%d", len(plan.Tasks))]++
 	switches := 0
 	for i := 1; i < len(conc.order); i++ {
@@ -633,7 +633,7 @@ func ExecuteConc(t *testing.T, plan *Plan, opts Opts) *RunResult {
 				Msg: fmt.Sprintf("task %d: its subtree after the concurrent run differs from the one after its solo run: %s", tp.ID, d)})
 			return res
 		}
-		res.Stats.NonTrivial[fmt.Sprintf("C18|conc|%s", conc.order)]++
+		res.Stats.NT(fmt.Sprintf("C18|conc|%s", conc.order))
 	}
 	return res
 }
